@@ -682,9 +682,36 @@ func (g *Gen) newObject(name string) Fragment {
 		s.Name = g.fresh("T")
 	}
 	if g.T.Bool(1, 3) {
-		if it := g.pick("interface"); it != nil {
-			s.Implements = []string{it.Name}
+		// one to three interfaces, in an order of their own (not the order of
+		// their names or of their definitions)
+		want := 1
+		if g.T.Bool(1, 2) {
+			want = 2 + g.T.Draw(2)
+		}
+		have := map[string]bool{}
+		fnames := map[string]bool{}
+		for k := 0; k < want*2 && len(s.Implements) < want; k++ {
+			it := g.pick("interface")
+			if it == nil {
+				break
+			}
+			clash := have[it.Name]
 			for _, f := range it.Fields {
+				if fnames[f.Name] {
+					clash = true
+				}
+			}
+			if clash {
+				continue
+			}
+			have[it.Name] = true
+			if g.T.Bool(1, 2) {
+				s.Implements = append(s.Implements, it.Name)
+			} else {
+				s.Implements = append([]string{it.Name}, s.Implements...)
+			}
+			for _, f := range it.Fields {
+				fnames[f.Name] = true
 				fs := FieldSpec{Name: f.Name, Type: texprFromName(f.Type)}
 				for _, a := range f.Args {
 					fs.Args = append(fs.Args, FieldSpec{Name: a.Name, Type: texprFromName(a.Type)})
